@@ -152,6 +152,21 @@ def check_traj(traj, parent, taus, cell_counts):
                                            case))
                     except Exception as e:
                         vs.append(viol(key + "|reversal_raises", f"{type(e).__name__}", case))
+    # NaN-free trajectories handed over with an integer dtype (and a numpy integer cell count)
+    if L >= 2 and all(x is not None for x in traj):
+        ai = np.array(traj, dtype=np.int64)
+        for tau in taus[:2]:
+            for noncorr in (False, True):
+                try:
+                    Ti = np.asarray(MSM(ai, total_num_cells=np.int64(cell_counts[0])).get_one_tau_transition_matrix(
+                        tau, noncorrelated_windows=noncorr).toarray(), dtype=float)
+                    Ei, _ = model_matrix(traj, tau, noncorr, cell_counts[0])
+                    if not np.allclose(Ti, Ei, rtol=0, atol=TOL):
+                        vs.append(viol(f"C12|traj={ts}|int_dtype|tau={tau}|{'noncorr' if noncorr else 'sliding'}",
+                                       "integer-dtype trajectory gives a different matrix", case, expected=Ei.tolist(),
+                                       observed=Ti.tolist()))
+                except Exception as e:
+                    vs.append(viol(f"C12|traj={ts}|int_dtype|raises", f"{type(e).__name__}: {str(e)[:80]}", case))
     # query histories on ONE instance: results must not depend on earlier queries (e.g. a cache keyed by tau only)
     nc0 = cell_counts[-1]
     queries = [(t, m) for t in taus for m in (False, True)]
